@@ -35,7 +35,7 @@ CLAIMED = {
     'C03': dict(text='Proved: C03_flatten_with_path_agrees (leaves, node array, namespace and error of flatten vs flatten_with_path for well-behaved '
                      'flatten functions), C03_iter_leaves (whenever flatten succeeds the lazy iterator yields exactly its leaves in order; agenda '
                      'machine vs recursion), C03_paths_agree (the paths computed on the fly by flatten_with_path equal treespec.paths() of the returned '
-                     'treespec - both equal the tree-level listing pathsT of the shape; no predicate), C03_counts, C03_is_leaf_flatten / C03_flatten_is_leaf, C03_error_parity_partial; the full '
+                     'treespec - both equal the tree-level listing pathsT of the shape; no predicate), C03_counts, C03_is_leaf_flatten / C03_flatten_is_leaf, C03_all_leaves_true / C03_all_leaves_false (all_leaves is True iff tree_is_leaf is True of every element, False iff the first element not accepted is a non-leaf; an exception of the predicate propagates), C03_error_parity_partial; the full '
                      'error-parity statement is refuted by C03_error_parity_full_false (known finding). Error parity of tree_iter and the '
                      'reductions: correspondence + oracle.' + PARTIAL,
                 technique='Lean 4 proof (simulation between two traversals) + correspondence', ref='6 C03'),
@@ -127,7 +127,7 @@ CLAIMED = {
                      'm > 0 leaves, an inner tree with n > 0 leaves and any tree with m * n leaves the model of tree_transpose succeeds, its result has the shape '
                      'inner-of-outer (STree.subst, i.e. compose) and its leaves are the columns of the m x n leaf matrix in order; uses unflatten_graft, '
                      'Lemmas/GraftBuild.lean: what the stack machine builds when it is handed trees instead of leaves - mutual structural induction in '
-                     'parallel with the replacement-leaves proof). transpose_map variants: correspondence + oracle.' + PARTIAL,
+                     'parallel with the replacement-leaves proof); C10_transpose_involution / C10_transpose_leaves_involution (zip(*zip(*rows)) = rows for every non-empty rectangular matrix: transposing back returns the leaf matrix, hence the leaves, of the original). transpose_map variants: correspondence + oracle.' + PARTIAL,
                 technique='Lean 4 proof (list lemmas for chunk/zip) + correspondence', ref='6 C10'),
     'C11': dict(text='Proved: C11_roundtrip (fromPickle (toPickle s) = s for every sane, well-shaped treespec whose registrations resolve), '
                      'C11_missing_registration, generated obligations C11_covers_all_fields_* / C11_model_has_the_same_fields / C11_kind_numbering. '
@@ -135,7 +135,7 @@ CLAIMED = {
                 technique='Lean 4 proof with obligations regenerated from the source + correspondence', ref='6 C11'),
     'C12': dict(text='Proved for every class universe and every history: C12_inv (engine variants and Python mirror agree in every reachable state), '
                      'C12_atomic, C12_isolation, C12_builtins, C12_no_double, C12_unregister_absent, C12_get_describes_flatten, '
-                     'C12_getall_describes_flatten. Histories exhaustive to a bound + sampled run through the real registry.' + PARTIAL,
+                     'C12_getall_describes_flatten, C12_inv_any_filter (the invariant for histories whose warnings filter changes at every call), C12_register_then_unregister (reversible: unregistering the class a successful registration added returns all three tables to exactly what they were). Histories exhaustive to a bound + sampled run through the real registry.' + PARTIAL,
                 technique='Lean 4 proof (invariant over operation histories) + correspondence on histories', ref='6 C12'),
     'C13': dict(text='Proved for every program of enter/exit/raise events: C13_unwind_invariant, C13_restore, C13_raise_restores, C13_scope*, '
                      'C13_cfg_reads_mode, C13_ordereddict_unaffected. All well-nested programs to a nesting bound run through the real context manager.' + PARTIAL,
